@@ -177,6 +177,9 @@ SeriesLevelDrop(s, k) == IF ~DropOK(s.index, k) THEN Err("init_nonunique") ELSE 
 SeriesRehierarch(s, dm) == IF ~ValidDepthMap(s.index, dm) THEN Err("runtime")
                            ELSE MkSeries(RehierLabels(s.index, dm), Take(s.vals, RehierOrder(s.index, dm)), s.dt, s.name)
 (* Frames: axis 0 = index, 1 = columns; the other axis and every cell stay where their label goes *)
+(* relabel_flat: the hierarchical axis becomes a one-level axis whose labels are the tuples; nothing else changes *)
+SeriesRelabelFlat(s) == MkSeries(s.index, s.vals, s.dt, s.name)
+FrameRelabelFlat(f, axis) == MkFrame(f.index, f.columns, f.cols, f.name)
 FrameLevelAdd(f, axis, x) == IF axis = 0 THEN MkFrame(LabelsLevelAdd(f.index, x), f.columns, f.cols, f.name)
                              ELSE MkFrame(f.index, LabelsLevelAdd(f.columns, x), f.cols, f.name)
 FrameLevelDrop(f, axis, k) ==
